@@ -31,6 +31,17 @@ def regress {K : Type} [Num K] (ds : List (K × K × K)) : K × K :=
   let det := s0 * s2 - s1 * s1
   ((s2 * t0 - s1 * t1) / det, (s0 * t1 - s1 * t0) / det)
 
+/-- The same fit computed about the first data point (blow and time taken relative to it, the result
+moved back): equal to `regress` in exact arithmetic (`Lemmas.Regress.regressCentred_eq`), but at
+`Float` it does not lose digits to the size of the blow index or of the epoch, so it is what the
+driver compares the implementation's `numpy` result with. -/
+def regressCentred {K : Type} [Num K] (ds : List (K × K × K)) : K × K :=
+  match ds with
+  | [] => regress ds
+  | (x0, y0, _) :: _ =>
+    let r := regress (ds.map (fun d => (d.1 - x0, d.2.1 - y0, d.2.2)))
+    (r.1 + y0 - r.2 * x0, r.2)
+
 structure Reg (K : Type) where
   preferredInertia : K
   initialInertia : K
@@ -95,7 +106,7 @@ def Reg.addDataPoint {K} [Num K] (r : Reg K) (reg : List (K × K × K) → K × 
   let r1 := { r with dataSet := ds3 }
   if Num.eqb inertia (Num.ofNat 1) then r1
   else if r.minBells ≤ (ds3.length : Int) then
-    ({ r1 with nReg := r.nReg + 1, lastOwn := regress ds3, lastX := r.blowTime row place }).relerp (reg ds3) inertia
+    ({ r1 with nReg := r.nReg + 1, lastOwn := regressCentred ds3, lastX := r.blowTime row place }).relerp (reg ds3) inertia
   else r1
 
 /-- What `wait_for_bell_time` of the regression rhythm does. -/
